@@ -235,12 +235,13 @@ class GetItemEndToEnd(Family):
             return {"msg": f"ra[{rs}, {cs}] on rows {rows}: {got}, list indexing gives {exp}", "sig": "wrong:e2e-getitem"}
 
     def bounded_cases(self, tier, seed):
-        for ls in ([3], [2, 0, 3], [0, 4], [1, 1, 1]):
+        for ls in ([3], [2, 0, 3], [0, 4], [1, 1, 1], [2, 1, 3, 2]):
             for rws in ([None, None, None], [1, None, None], [None, None, -1], [0, 5, 2]):
                 for cls_ in ([None, None, None], [1, None, None], [None, -1, None], [None, None, -1], [None, None, 2], [-2, None, None], [3, 0, -1]):
                     yield {"lengths": ls, "rows": rws, "cols": cls_}
             n_ = len(ls)
-            for rws in ({"index": [n_ - 1, 0, -1]}, {"index": []}, {"mask": [i % 2 == 1 for i in range(n_)]}, {"mask": [True] * n_}):
+            perm = {"index": [0] + list(range(n_ - 2, 0, -1)) + [n_ - 1]} if n_ >= 3 else {"index": [0] * n_}
+            for rws in ({"index": [n_ - 1, 0, -1]}, {"index": []}, perm, {"index": [0] + [-1] * 3}, {"mask": [i % 2 == 1 for i in range(n_)]}, {"mask": [True] * n_}):
                 for cls_ in (None, [None, None, -1], [1, None, 2]):
                     yield {"lengths": ls, "rows": rws, "cols": cls_}
 
@@ -648,4 +649,100 @@ class ScalarAssignEndToEnd(Family):
 
     def bounded_cases(self, tier, seed):
         for ls in ([3], [2, 1, 3], [1, 4], [2, 2, 2]):
+            yield {"lengths": ls}
+
+
+@register
+class LazyScalarIndexEndToEnd(Family):
+    """C06: integer indexing of a lazily selected, never materialised array x (x = ra[:, ::-1], ra[:, 1:], ra[::-1], ra[a::2]):
+    x[i] is row i of x as a 1-D array and x[i, j] its cell j (negative indices from the end) - what a freshly built array with x's rows gives."""
+    name = "x[i] / x[i, j] end to end, x a lazy selection"
+    qualname = "npstructures.raggedarray.indexablearray:IndexableArray.__getitem__"
+    serves = ["C06"]
+    configs = ["int64"]
+    timeout_ms = 60000
+    assumed = GetItemEndToEnd.assumed
+
+    def kinds(self):
+        return [f"{rv}|{f}" for rv in ("rows a::2", "rows ::-1", "cols 1:", "cols ::-1") for f in ("x[i]", "x[i, j]")]
+
+    def extra_functions(self):
+        return ["IndexableArray._get_row", "IndexableArray._get_element", "RaggedBase.ravel", "RaggedBase._flatten_myself"]
+
+    def late_lemmas(self, ctx, kind, exc):
+        st = ctx.ghost.get("st")
+        if st is None or not isinstance(exc, IndexError) or not st.get("calls"):
+            return
+        call = st["calls"][-1]
+        osh = call["shape"]
+        ffs = ctx.ghost.get("forall_facts", [])
+        pool = list(st.get("pool", [])) + [st["g"].n, z3.IntVal(0)]
+        if ffs:
+            w = ffs[-1]["w"]
+            r, c = z3.Int("late_r"), z3.Int("late_c")
+            ctx.assume(z3.And(r == call["rowof"](w), c == w - osh.S(r)))
+            pool += [w, r, r + 1, c] + st["row_pool"](r)
+        ctx.prove_then_assume("late.lemma: no bounds check fails for indices that exist", z3.BoolVal(False), pool=pool, kind="lemma")
+
+    def run(self, ctx, kind):
+        rv, form = kind.split("|")
+        g = sym_ragged(ctx)
+        n, S, L, D = g.n, g.S, g.L, g.D.fn
+        recv, ex = LazyGetItemEndToEnd.receiver(self, ctx, g, rv + "|NNN|NN:1")
+        nb, Lb, addr = ex["nb"], ex["Lb"], ex["addr"]
+        row_pool = ex.get("extra_pool", lambda i_: [i_, i_ + 1])
+        i, j = z3.Int("i"), z3.Int("j")
+        ctx.declare_inputs(i, j)
+        wrapn = lambda t, m: z3.If(t < 0, t + m, t)
+        ctx.assume(z3.And(-nb <= i, i < nb))
+        row = wrapn(i, nb)
+        cls, old, calls = stub_flat_indices(ctx)
+        st = {"g": g, "calls": calls, "pool": [row, row + 1, i, j] + row_pool(row), "row_pool": row_pool}
+        ctx.ghost["st"], ctx.ghost["g"] = st, g
+        try:
+            if form == "x[i]":
+                out = recv[SInt(i)]
+            else:
+                ctx.assume(z3.And(-Lb(row) <= j, j < Lb(row)))
+                out = recv[SInt(i), SInt(j)]
+        finally:
+            cls.get_flat_indices = old
+        call = calls[-1]
+        osh = call["shape"]
+        base = [row, row + 1, nb, z3.IntVal(0)] + row_pool(row)
+        ctx.prove_then_assume("post.lemma: the materialised geometry has x's rows", z3.And(osh.n == nb, osh.L(row) == Lb(row)), pool=base)
+        if form == "x[i]":
+            c = z3.Int("c")
+            ctx.prove("post.x[i] has the length of row i of x", dim_term(out.shape_[0]) == Lb(row), pool=base)
+            ctx.skolem(z3.And(0 <= c, c < Lb(row)))
+            ctx.prove("post.x[i][c] is cell c of row i of x", out.get(c) == D(addr(row, c)), pool=base + [c, osh.S(row) + c])
+        else:
+            cj = wrapn(j, Lb(row))
+            ctx.prove("post.x[i, j] is cell j of row i of x (negative indices from the end)", out.t == D(addr(row, cj)), pool=base + [cj, osh.S(row) + cj])
+        ctx.prove("post.source not written", z3.BoolVal(g.D.buf.writes == 0))
+
+    def concrete(self, case):
+        from npstructures import RaggedArray
+        ls = case["lengths"]
+        rows, v = [], 10
+        for l in ls:
+            rows.append(list(range(v, v + l)))
+            v += l
+        for nm, mk, ml in (("ra[1::2]", lambda x: x[1::2], lambda x: x[1::2]), ("ra[::-1]", lambda x: x[::-1], lambda x: x[::-1]),
+                           ("ra[:, 1:]", lambda x: x[:, 1:], lambda x: [r[1:] for r in x]), ("ra[:, ::-1]", lambda x: x[:, ::-1], lambda x: [r[::-1] for r in x])):
+            exp = ml(rows)
+            for i in range(-len(exp), len(exp)):
+                x = mk(RaggedArray(np.arange(10, 10 + sum(ls)), ls))
+                if np.asarray(x[i]).tolist() != exp[i]:
+                    return {"msg": f"{nm}[{i}] on rows {rows}: {np.asarray(x[i]).tolist()}, expected {exp[i]}", "sig": "wrong:e2e-lazy-int-row"}
+                for j in range(-len(exp[i]), len(exp[i])):
+                    x = mk(RaggedArray(np.arange(10, 10 + sum(ls)), ls))
+                    if x[i, j] != exp[i][j]:
+                        return {"msg": f"{nm}[{i}, {j}] on rows {rows}: {x[i, j]}, expected {exp[i][j]}", "sig": "wrong:e2e-lazy-element"}
+
+    def concretise(self, kind, model, ghost):
+        return {"lengths": [3, 2, 4]}
+
+    def bounded_cases(self, tier, seed):
+        for ls in ([3], [2, 1, 3], [1, 4], [2, 2, 2], [3, 0, 2]):
             yield {"lengths": ls}
